@@ -582,6 +582,20 @@ def generate(repo):
     early = [x for x in f.body if isinstance(x, ast.If) and ast.unparse(x.test) == "not is_cp(c_sys, hs, atol)" and ast.unparse(x.body[0]) == "return []"]
     if len(early) != 1:
         raise Untranslatable(f"{w}: no `if not is_cp(c_sys, hs, atol): return []`")
+    # step 3 (phase convention): statement skeleton of the loop over `_kraus`
+    ph = one((x for x in f.body if isinstance(x, ast.For) and ast.unparse(x.iter) == "_kraus"), "`for k in _kraus` loop", w)
+    expect = ("for k in _kraus:\n    for i, value in enumerate(k.flatten()):\n        if value == 0:\n            continue\n        elif value < 0:\n"
+              "            e_i_theta = value / abs(value)\n            _k = 1 / e_i_theta * k\n            kraus.append(_k)\n            break\n"
+              "        else:\n            kraus.append(k)\n            break\n    else:\n        kraus.append(k)")
+    if ast.unparse(ph) != expect:
+        raise Untranslatable(f"{w}: the phase step is not the `first non-zero entry; if value < 0: k / (value / abs(value))` skeleton")
+    emit(f"{w} step 3: `for i, value in enumerate(k.flatten()): if value == 0: continue / elif value < 0: e_i_theta = value / abs(value); "
+         "_k = 1 / e_i_theta * k / else: k` and the loop's `else: k` (abs is the kernel parameter absFlat; `<` on complex is numpy's lexicographic order)",
+         "phaseFactorGen {d : Nat} (k : Mat CRat d d) (absFlat : Vec Rat (d * d)) : CRat",
+         "match (List.finRange (d * d)).find? (fun x => (flat k).get x != 0) with\n  | none => 1\n  | some x =>\n    let value := (flat k).get x\n"
+         "    if cLtZero value then cInv (value * CRat.ofRat (1 / absFlat.get x)) else 1")
+    emit(f"{w} step 3: `_k = 1 / e_i_theta * k`", "phaseFixGen {d : Nat} (k : Mat CRat d d) (absFlat : Vec Rat (d * d)) : Mat CRat d d",
+         "Mat.smul (phaseFactorGen k absFlat) k")
     f = find_fn(gate, "is_cp")
     ret = one((x for x in ast.walk(f) if isinstance(x, ast.Return)), "return", "gate.py:is_cp")
     if ast.unparse(ret.value) != "mutil.is_positive_semidefinite(to_choi_from_hs_with_sparsity(c_sys, hs), atol=atol)":
